@@ -266,6 +266,17 @@ func TestVerif_C29(t *testing.T) {
 					master = k
 				}
 			}
+			// the same with a key hint naming any of the key files present (also one of another password: with
+			// at most 20 keys the search falls back to all keys) and with a hint naming no key at all
+			hints := append(verifC29KeyNames(c.State), strings.Repeat("0", 64))
+			for _, label := range []string{"A", "B", "C"} {
+				for _, hint := range hints {
+					_, err := oracle.OpenHint(ctx, c.State, verifC29PW[label], hint)
+					if (err == nil) != present[label] {
+						probs = append(probs, fmt.Sprintf("key: with --key-hint %s (key of password %q) password %s opens=%v but a key file for it present=%v (%v)", hint[:8], mm.keys[hint], label, err == nil, present[label], err))
+					}
+				}
+			}
 			// never locked out: the password used to open, or the new one, still works
 			userOK := present[baseModel.curPW] || (last.kind == "passwd" && present[last.arg])
 			if !userOK || opened == 0 {
